@@ -1,7 +1,142 @@
 import Driver.Proto
+import GbVerif.Model.Header
+import GbVerif.Spec.Header
+import GbVerif.Gen.HeaderTables
 namespace Driver
+open GbVerif
 
-/-- C19 correspondence (stub) -/
-def checkC19 (l : Line) : Verdict := .bad s!"stream {l.stream} not implemented"
+/-! C19 correspondence.
+
+`c19.hdr hdr=<80 bytes hex> | valid=<0|1> banks=<n> rombytes=<n> rambytes=<n> cart=<0|1|3|n|panic> pmsg=<panic message, _ for space>`
+   in-process: `Header` transmuted from the 80 bytes; `valid_checksum`, `get_rom_bank_count`, `get_rom_size_bytes`,
+   `get_ram_size_bytes`, `create_cart_state` (identified by its bank-register behaviour; panic caught).
+
+`c19.file kind=<file|missing> hdr=<80 bytes hex> len=<n> pb=<probe bank> | out=<stdout prefix hex> err=<stderr prefix hex> status=<alive|exit:N|sig:N>`
+   the real binary on a file of `len` bytes: zeros, the header at 0x100, a probe program at 0x150 that selects ROM
+   bank `pb`, reads 0x7FFF, prints that byte, 'K' and a newline on the serial port, then loops; byte 'Z' at
+   offset 0x4000*pb + 0x3FFF (whatever of this fits into `len`).
+-/
+
+namespace C19
+
+def bytesOfString (s : String) : List Nat := s.toUTF8.toList.map (·.toNat)
+
+def isPrefix : List Nat → List Nat → Bool
+  | [], _ => true
+  | _ :: _, [] => false
+  | a :: as, b :: bs => a == b && isPrefix as bs
+
+def containsSub (pat : List Nat) : List Nat → Bool
+  | [] => pat.isEmpty
+  | b :: bs => isPrefix pat (b :: bs) || containsSub pat bs
+
+/-- `Header::get_title`: the 11 title bytes with trailing NULs trimmed (ASCII titles only in this stream) -/
+def titleBytes (hdr : Array Nat) : List Nat :=
+  let t := (hdr.toList.drop 0x34).take 11
+  (t.reverse.dropWhile (· == 0)).reverse
+
+def kindCode : HeaderSpec.Controller → Nat
+  | .romOnly => 0 | .mbc1 => 1 | .mbc3 => 3 | _ => 99
+
+def romOf (hdr : Array Nat) : Nat → Nat :=
+  fun i => if 0x100 ≤ i ∧ i < 0x150 then hdr.getD (i - 0x100) 0 else 0
+
+def checkHdr (l : Line) : Verdict :=
+  let hdr := parseBytes (l.inS "hdr")
+  if hdr.size != 80 then .bad "hdr is not 80 bytes" else
+  let rom := romOf hdr
+  let h : Header.Header := ⟨fun i => hdr.getD i 0⟩
+  let valid := l.outN "valid" == 1
+  let banks := l.outN "banks"; let romb := l.outN "rombytes"; let ramb := l.outN "rambytes"
+  let cart := l.outS "cart"
+  let typ := rom 0x147; let rc := rom 0x148; let ac := rom 0x149
+  -- spec, from the header bytes and the implementation's outputs only
+  if valid && !HeaderSpec.checksumOk rom then
+    .specDiff s!"valid_checksum accepts although the standard checksum is {HeaderSpec.headerChecksum rom} ≠ byte 0x14D = {rom 0x14D}"
+  else if (match HeaderSpec.romBanks? rc with | some n => banks != n | none => false) then
+    .specDiff s!"ROM banks for code {rc}: impl={banks} standard={HeaderSpec.romBanks? rc}"
+  else if (match HeaderSpec.romBytes? rc with | some n => romb != n | none => false) then
+    .specDiff s!"ROM bytes for code {rc}: impl={romb} standard={HeaderSpec.romBytes? rc}"
+  else if (match HeaderSpec.ramBytes? ac with | some n => ramb != n | none => false) then
+    .specDiff s!"RAM bytes for code {ac}: impl={ramb} standard={HeaderSpec.ramBytes? ac}"
+  else if cart != "panic" && !(match HeaderSpec.controller? typ with
+      | some c => HeaderSpec.implemented c && toString (kindCode c) == cart
+      | none => false) then
+    .specDiff s!"cartridge type {typ}: impl builds controller {cart}, the standard says {repr (HeaderSpec.controller? typ)}"
+  -- model
+  else if Header.validChecksum h != valid then .modelDiff s!"valid model={Header.validChecksum h} impl={valid}"
+  else if Header.romBankCount h != banks then .modelDiff s!"banks model={Header.romBankCount h} impl={banks}"
+  else if Header.romSizeBytes h != romb then .modelDiff s!"rombytes model={Header.romSizeBytes h} impl={romb}"
+  else if Header.ramSizeBytes h != ramb then .modelDiff s!"rambytes model={Header.ramSizeBytes h} impl={ramb}"
+  else
+    let mcart := match Header.cartState h with | some k => toString k | none => "panic"
+    if mcart != cart then .modelDiff s!"cart model={mcart} impl={cart}"
+    else if cart == "panic" && l.outS "pmsg" != "Unsupported_cart_type" then
+      .modelDiff s!"panic message impl={l.outS "pmsg"}"
+    else .ok (valid || cart != "panic" || (HeaderSpec.romBanks? rc).isSome || (HeaderSpec.ramBytes? ac).isSome)
+
+def fallbackLine : List Nat := bytesOfString "\nNo ROM, loading fallback\n"
+
+def checkFile (l : Line) : Verdict :=
+  let hdr := parseBytes (l.inS "hdr")
+  if hdr.size != 80 then .bad "hdr is not 80 bytes" else
+  let missing := l.inS "kind" == "missing"
+  let len := l.inN "len"
+  let pb := l.inN "pb"
+  let rom := romOf hdr
+  let out := (parseBytes (l.outS "out")).toList
+  let err := (parseBytes (l.outS "err")).toList
+  let status := l.outS "status"
+  let loading := bytesOfString "Loading \"" ++ titleBytes hdr ++ bytesOfString "\"\n"
+  let saysLoading := isPrefix (bytesOfString "Loading \"") out
+  -- classify the run
+  let obs? : Option HeaderSpec.Observed :=
+    if status.startsWith "sig:" then some .fault
+    else if status.startsWith "exit:" then some .rejected                       -- controlled termination
+    else if status == "alive" && saysLoading then some .accepted
+    else if status == "alive" && containsSub fallbackLine out then some .rejected  -- message, load_rom returned None
+    else none
+  match obs? with
+  | none => .bad s!"unclassifiable run: status={status}"
+  | some obs =>
+  -- spec: the property on this run
+  if !HeaderSpec.allowed rom (if missing then 0 else len) obs then
+    (match obs with
+     | .fault => .specDiff s!"process killed by a signal ({status}) — spec: load-time rejection or clean run only"
+     | _ => .specDiff s!"file accepted although the property requires rejection (len={len}, declared={HeaderSpec.romBytes? (rom 0x148)}, checksumOk={HeaderSpec.checksumOk rom}, typeSupported={HeaderSpec.typeSupported (rom 0x147)})")
+  else
+  let specProbeBad :=
+    obs == .accepted && (match HeaderSpec.romBanks? (rom 0x148) with
+      | some n => pb < n && 0x4000 * pb + 0x3fff < len && !isPrefix (loading ++ [0x5A, 0x4B, 0x0A]) out
+      | none => false)
+  if specProbeBad then
+    .specDiff s!"accepted, but bank {pb} byte 0x7FFF (inside the declared ROM) did not read back: ROM size / controller not as the header tables say"
+  else
+  -- model
+  let f : Header.RomFile := ⟨!missing, len, rom⟩
+  match Header.loadRom f with
+  | .rejectedMsg m =>
+    if !isPrefix (bytesOfString m.text ++ fallbackLine) out then .modelDiff s!"model: rejected with \"{m.text}\"; impl stdout differs"
+    else if status != "alive" then .modelDiff s!"model: rejected, fallback core keeps running; impl status={status}"
+    else .ok true
+  | .panic =>
+    if out != loading then .modelDiff "model: Loading line then panic; impl stdout differs"
+    else if status != "exit:101" then .modelDiff s!"model: panic (exit 101); impl status={status}"
+    else if !containsSub (bytesOfString "Unsupported cart type") err then .modelDiff "model: panic message 'Unsupported cart type' not on stderr"
+    else .ok true
+  | .accepted cfg =>
+    if pb ≥ cfg.romBanks then .bad s!"probe bank {pb} outside the model's {cfg.romBanks} banks"
+    else
+      let b := if 0x4000 * pb + 0x3fff < len then 0x5A else 0
+      if !isPrefix (loading ++ [b, 0x4B, 0x0A]) out then .modelDiff s!"model: accepted ({cfg.romBanks} banks, kind {cfg.kind}), probe prints {b}; impl stdout differs"
+      else if status != "alive" then .modelDiff s!"model: accepted and running; impl status={status}"
+      else .ok true
+
+end C19
+
+def checkC19 (l : Line) : Verdict :=
+  if l.stream == "c19.hdr" then C19.checkHdr l
+  else if l.stream == "c19.file" then C19.checkFile l
+  else .bad s!"unknown stream {l.stream}"
 
 end Driver
